@@ -228,6 +228,7 @@ CONST_SITES = {
     # function qualname -> what it decides
     "jaqalpaq.core.parameter.Parameter.validate": "integral-float test of a FLOAT constant given to an INT parameter",
     "jaqalpaq.core.algorithm.fill_in_let.LetFiller.resolve_constant": "value a let constant is replaced by",
+    "jaqalpaq.core.constant.Constant.__int__": "conversion of a register size (or any constant) to an integer",
 }
 
 
@@ -750,6 +751,7 @@ def equality_not_recursive_on_chain(ctx, rep, rule):
 EXTRA = {
     "C01": [(value_writer_total, "C01.11"), (reserved_words_cover_keywords, "C01.12"), (macro_call_nesting, "C01.13")],
     "C05": [(constant_chain, "C05.13", {"jaqalpaq.core.algorithm.fill_in_let.LetFiller.resolve_constant": CONST_SITES["jaqalpaq.core.algorithm.fill_in_let.LetFiller.resolve_constant"]})],
+    "C06": [(constant_chain, "C06.18", {"jaqalpaq.core.constant.Constant.__int__": CONST_SITES["jaqalpaq.core.constant.Constant.__int__"]})],
     "C08": [(execution_owns_its_counters, "C08.7")],
     "C13": [(builder_relinks, "C13.8"), (fresh_bounding_is_busy, "C13.9"), (qubit_index_normalised, "C13.10"), (parallel_branch_state, "C13.11")],
     "C15": [(view_size_is_integer, "C15.10"), (execution_owns_its_counters, "C15.11"), (outcome_is_plain_int, "C15.12")],
